@@ -7,7 +7,8 @@ ROOT = os.path.dirname(os.path.dirname(os.path.abspath(__file__)))
 props = [json.loads(l) for l in open(os.path.join(ROOT, "properties.jsonl"))]
 
 MATCHER_NOTE = ("Trusted: Lean kernel; axioms propext/Classical.choice/Quot.sound; translator (constants, presets, matrix layout, and the cell functions of the optimal matcher - "
-                "next_m_cell, p_score, MatrixCell::set/get, UNMATCHED, the first-row cell, the prefix bonus - translated expression by expression into Gen/Optimal.lean); harness+driver. "
+                "next_m_cell, p_score, MatrixCell::set/get, UNMATCHED, the first-row cell, the prefix bonus - translated expression by expression into Gen/Optimal.lean; the branches of the scoring loop of "
+                "calculate_score translated by symbolic execution into Gen/ScoreLoop.lean); harness+driver. "
                 "Modelled, not verified: the control flow of the matcher (tied by the correspondence run: corpus + seeded random + exhaustive small domain + "
                 "size-limit shapes, every case on a fresh, a used and a poisoned matcher). The optimal matcher is modelled twice: as the naive two-matrix recurrence (optimalDP) and at code level "
                 "(Model/OptImpl.lean: one score row shifted by the row offsets, UNMATCHED sentinels, two-bit back-pointer segments, traceback; loops transcribed by hand zip for zip, u16/u8 arithmetic "
@@ -60,7 +61,8 @@ CLAIMS = {
              "(C03_substring_ascii_score / _unicode_score), the greedy matcher (C03_greedy_ascii_score / _unicode_score) and hence EVERY path of fuzzy_match - contiguous shortcut, "
              "matrix, greedy fallback - return the scheme's value of the alignment they report (C03_fuzzy_all_paths_ascii / _unicode); fuzzy_match_correct_ascii / _unicode put C01, C02 "
              "and C03 into one statement about fuzzy_match (matches iff subsequence; then a valid witness whose scheme value is the score). One-character needles: C03_fuzzy_one_char_ascii / _unicode (from the one-character optimum of C04). Companion file C03_GreedyEntry: the fuzzy_match_greedy entry point "
-             "(length guards, greedy-only prefilter, contiguous shortcut, inner routine) returns the scheme's value of the alignment it reports (C03_greedy_entry_ascii / _unicode). The compressed matrix of "
+             "(length guards, greedy-only prefilter, contiguous shortcut, inner routine) returns the scheme's value of the alignment it reports (C03_greedy_entry_ascii / _unicode). Companion file C03_Translated: the unrolled first iteration, the two branches of the loop body and the prefer_prefix tail of calculate_score, "
+             "translated from score.rs on every run by symbolic execution of their statements (Gen/ScoreLoop.lean), are the model's state machine stInit / stepMatch / stepSkip / prefixBonusCs the theorems are about. The compressed matrix of "
              "fuzzy_optimal.rs equals the recurrence (C04_Compressed: optimalImpl_eq_optimalDP, C04_compressed_matrix_correct - with the u16/u8 arithmetic read as exact, which C03_fits_u16 justifies for needles up to 2519 characters). The oracle "
              "evaluates score = scheme on the reported indices for all six algorithms on every case; the u16 saturation for needles > 2520 characters is a KNOWN-FINDING."),
     "C04": dict(
